@@ -47,7 +47,7 @@ fn main() {
     let mut s = GraphStore::new();
     let a = s.create_node("A");
     s.set_node_property("default", a, "k", 1i64).unwrap();
-    let t = s.begin_transaction(IsolationLevel::Snapshot);
+    let t = s.begin_transaction(IsolationLevel::SnapshotIsolation);
     let r = s.commit_transaction(t); println!("commit {:?}", r.is_ok());
     s.set_node_property("default", a, "k", 2i64).unwrap();
     rt("versions", &s);
